@@ -273,4 +273,5 @@ def run(ctx):
     sizes = [1, 255, 256, 1000, 1001, 1025] if ctx.tier == "quick" else [1, 85, 255, 256, 257, 999, 1000, 1001, 1024, 1025, 2047, 2501, 4097]
     lj = [dict(name=c, sizes=sizes[i::4]) for c in CONFIGS for i in range(4)]
     ctx.stats.merge_json(core.run_shards("harness.checks.c11", "large_shard", lj).to_json())
+    ctx.stats.merge_json(core.run_shards_optimised("harness.checks.c11", "large_shard", [dict(name=c, sizes=[1, 85]) for c in CONFIGS]).to_json())
     ctx.stats.extra["configs"] = CONFIGS
